@@ -154,6 +154,33 @@ func r2tFreshness(l *mbLib, scope ast.Node, ftypes []*ast.FuncType, recv types.O
 				return "fresh", fn.FullName()
 			}
 		}
+		// a helper of the library: fresh iff everything it returns is fresh inside the helper
+		if fn := CalleeOf(info, x); fn != nil && depth < 3 {
+			if hd := l.decls[fn]; hd != nil && hd.Body != nil {
+				var rets []ast.Expr
+				ast.Inspect(hd.Body, func(n ast.Node) bool {
+					if _, ok := n.(*ast.FuncLit); ok {
+						return false
+					}
+					if r, ok := n.(*ast.ReturnStmt); ok && len(r.Results) >= 1 {
+						rets = append(rets, r.Results[0])
+					}
+					return true
+				})
+				all := len(rets) > 0
+				why := ""
+				for _, r := range rets {
+					res, w := r2tFreshness(l, hd, []*ast.FuncType{hd.Type}, mbRecvObj(info, hd), r, depth+1)
+					if res != "fresh" {
+						all, why = false, w
+					}
+				}
+				if all {
+					return "fresh", "helper " + fn.Name() + " returns storage it creates itself"
+				}
+				return "unknown", "helper " + fn.Name() + " may return storage it did not create: " + why
+			}
+		}
 		return "unknown", "result of " + exprStr(x.Fun)
 	case *ast.StarExpr:
 		return r2tFreshness(l, scope, ftypes, recv, x.X, depth)
